@@ -90,6 +90,35 @@ func init() {
 						{Op: "sub", H: "e", P: "t", Name: "z"}, {Op: "inc", H: "e", M: "m", V: 5}}},
 					{Name: "p1", Ops: []Op{{Op: "pass"}, {Op: "pass"}}},
 				}}})
+			// five sibling sub-scopes in one shard, one closed: the pass that retires it still delivers the others' increments
+			sib := []Op{}
+			for _, n := range []string{"a", "b", "c", "d", "e"} {
+				sib = append(sib, Op{Op: "sub", H: n, Name: n}, Op{Op: "inc", H: n, M: "m", V: 1})
+			}
+			sib = append(sib, Op{Op: "close", H: "c"}, Op{Op: "inc", H: "a", M: "m", V: 2}, Op{Op: "inc", H: "e", M: "m", V: 3}, Op{Op: "pass"})
+			out = append(out, scenarioSet{mode: "random", maxExec: 60, sc: &Scenario{
+				Name: "c07-siblings-" + rep, Reporter: rep, Shards: 1, Points: []string{"op_pass"}, NoQuiesce: true,
+				Threads: []ThreadSpec{{Name: "a1", Ops: sib}}}})
+			// "scopes derived from a closed scope are inert": the child was obtained before its parent was closed, and is
+			// derived again - by name and by tags - from the closed parent
+			out = append(out, scenarioSet{mode: "dfs", maxExec: 600, sc: &Scenario{
+				Name: "c07-derive-from-closed-" + rep, Reporter: rep, Points: []string{"op_sub", "op_inc", "op_close", "op_pass"},
+				Threads: []ThreadSpec{
+					{Name: "a1", Ops: []Op{{Op: "sub", H: "p", Name: "p"}, {Op: "sub", H: "c", P: "p", Name: "x"}, {Op: "sub", H: "t", P: "p", Tags: kv},
+						{Op: "inc", H: "c", M: "m", V: 1}, {Op: "close", H: "p"},
+						{Op: "sub", H: "c2", P: "p", Name: "x"}, {Op: "inc", H: "c2", M: "m", V: 2},
+						{Op: "sub", H: "t2", P: "p", Tags: kv}, {Op: "inc", H: "t2", M: "m", V: 3}}},
+					{Name: "p1", Ops: []Op{{Op: "pass"}}},
+				}}})
+			// a parent is closed by one goroutine while another derives new scopes from it; afterwards new scopes can still
+			// be created in that shard (no lock is left behind)
+			out = append(out, scenarioSet{mode: "dfs", maxExec: 1500, sc: &Scenario{
+				Name: "c07-close-during-derive-" + rep, Reporter: rep, Shards: 1,
+				Points: []string{"op_sub", "op_close", "ss_closed_check", "ss_rlock", "ss_found_check", "ss_lock", "cl_cas"},
+				Threads: []ThreadSpec{
+					{Name: "a1", Ops: []Op{{Op: "sub", H: "p", Name: "p"}, {Op: "sub", H: "n1", P: "p", Tags: kv}, {Op: "sub", H: "n2", Name: "fresh"}, {Op: "inc", H: "n2", M: "m", V: 1}}},
+					{Name: "a2", Ops: []Op{{Op: "sub", H: "p", Name: "p"}, {Op: "close", H: "p"}, {Op: "sub", H: "n3", Name: "other"}, {Op: "inc", H: "n3", M: "m", V: 2}}},
+				}}})
 		}
 		return out
 	}
